@@ -59,10 +59,17 @@ let show_fill (r: buf res) : string = match r with
   | Ok b -> Printf.sprintf "%s p=%d w=%d" (hex_of_bytes (readable b)) (int_of_nat (prependableBytes b)) (int_of_nat (writableBytes b))
   | Rejected -> "rejected"
   | Fault -> "FAULT"
+(* headers_ is a std::map<string,string>: iteration in key order (bytes compared as unsigned chars), keys unique
+   (addHeader = operator[] assignment: the last value of a key wins) *)
 let kv_list (s: string) : (byte list * byte list) list =
   if s = "-" then [] else
-  List.map (fun kv -> match String.split_on_char '=' kv with
-              | [k; v] -> (spec2 k, spec2 v) | _ -> failwith "bad k=v") (String.split_on_char ',' s)
+  let l = List.map (fun kv -> match String.split_on_char '=' kv with
+              | [k; v] -> (spec2 k, spec2 v) | _ -> failwith "bad k=v") (String.split_on_char ',' s) in
+  let key (k, _) = List.map int_of_byte k in
+  let rec last_wins acc = function
+    | [] -> List.rev acc
+    | (k, v) :: t -> if List.exists (fun (k', _) -> k' = k) t then last_wins acc t else last_wins ((k, v) :: acc) t in
+  List.stable_sort (fun a b -> compare (key a) (key b)) (last_wins [] l)
 let () =
   let kind = ref "raw" in
   let tag = ref [] in
@@ -106,6 +113,10 @@ let () =
         let reqs = List.filter_map (fun e -> match e with SRequest r -> Some (show_req r) | _ -> None) evs in
         let sent = List.concat (List.filter_map (fun e -> match e with SSend x -> Some x | _ -> None) evs) in
         let oof = List.exists (fun e -> e = SOof) evs in
+        let asrt = List.exists (fun e -> e = SAssert) evs in
+        if asrt then print_string "D ASSERT HttpRequest::setMethod method_ == kInvalid\n"
+        else if c'.s_aborted then print_string "D skipped (aborted)\n"
+        else
         Printf.printf "D %s sent=%s r=%d conn=%s sh=%d st=%d%s\n" (if reqs = [] then "-" else String.concat ";" reqs)
           (hex_or_dash sent) (List.length c'.s_buf) (b01 c'.s_connected) (min 1 (int_of_nat c'.s_shutdowns))
           (state_num c'.s_ctx.h_state) (if oof then " OOF" else "")
